@@ -1,4 +1,6 @@
-use crate::parse_scalars::parse_yaml11_bool;
+use crate::de::Location;
+use crate::parse_scalars::{parse_int_signed, parse_yaml11_bool, parse_yaml12_float};
+use crate::tags::SfTag;
 use regex::Regex;
 use std::sync::OnceLock;
 
@@ -44,13 +46,24 @@ fn is_numeric_looking(s: &str) -> bool {
     re.is_match(s)
 }
 
+/// True if our own reader resolves the plain scalar `s` to a number. Its grammar is wider than
+/// `is_numeric_looking` (`_1`, `0X1F`, `+nan`, `Infinity` ...), so it is asked directly.
+fn reads_as_number(s: &str) -> bool {
+    let location = Location::UNKNOWN;
+    parse_int_signed::<i128>(s, "i128", location, false).is_ok()
+        || parse_yaml12_float::<f64>(s, location, SfTag::None, false).is_ok()
+}
+
 /// Returns true if `s` is a special YAML token or looks like a number/boolean,
 /// which means it should be quoted to be treated as a string.
 fn is_ambiguous(s: &str) -> bool {
-    if s.is_empty() {
+    if starts_with_document_marker(s) {
         return true;
     }
-    if starts_with_document_marker(s) {
+    // The reader resolves a plain scalar after trimming the white space around it. That includes
+    // Unicode white space, which is content for the scanner: `\u{2028}0` would be read as 0.
+    let s = s.trim();
+    if s.is_empty() {
         return true;
     }
     if s == "~"
@@ -99,7 +112,7 @@ fn is_ambiguous(s: &str) -> bool {
 
     // Numeric-looking tokens: quote them to preserve strings even if they would overflow
     // our numeric parsers.
-    if is_numeric_looking(s) {
+    if is_numeric_looking(s) || reads_as_number(s) {
         return true;
     }
 
